@@ -1,6 +1,7 @@
 //@ tu: libxcm/core/attr_path.c
 //@ enforce: attr_pcomp_parse_key
-//@ pre-unwind: strlen.0:257 attr_pcomp_parse_key.0:257 ut_strdup.0:258
+//@ loops: attrpath.loops
+//@ pre-unwind: strlen.0:257 ut_strdup.0:258
 //@ props: C10 C19
 //@ expect: postcondition>=6 canary=3
 #include "_unit.h"
